@@ -111,6 +111,11 @@ func sysOp(s *sys.System, ctx *core.Context, o map[string]interface{}) map[strin
 			res = map[string]interface{}{"ok": false, "class": "panic", "msg": fmt.Sprint(x)}
 		}
 	}()
+	if boolean(o["touch"]) {
+		// one more request of the same client just before: when was the location last updated (a read with
+		// no observable effect of its own - it opens and releases the cached location like any other)
+		s.GetLastUpdatedMem(ctx, name)
+	}
 	switch str(o["op"]) {
 	case "addfact":
 		got, err := s.AddFact(ctx, name, id, js(o["fact"]))
